@@ -13,6 +13,7 @@ LEVEL_TEXT = (
     'and sampled further with seeded plans (up to 6 sessions per run, varied segmentation, delays, pass cost, racing close/reset); '
     'oracle: on each connection at most one NOTIFICATION, it is the last message written, its (code, subcode) is the class table '
     'entry written from RFC 4271 s6 / RFC 6608 / RFC 7313, and a received NOTIFICATION is never answered.'
+    ' A ROUTE-REFRESH with an unknown subtype must be ignored; a slowly split KEEPALIVE may precede the message under test.'
 )
 LEVEL_NOTE = 'trusts: the class table below (cells where the RFCs leave a choice accept every defensible subcode), simulated TCP, reference framing of what exabgp wrote'
 DESIGN_REF = 'DESIGN.md section 5, C10'
